@@ -87,13 +87,17 @@ Definition reviewed_sites : list (string * string * string * string) :=
    AddressRequest.Verify: guarded by len(sigbytes) != 65 / HasPrefix 0x
    NodeRequest.Verify: guarded by len(sigbytes) < 64
 *)
-Fixpoint site_list_eqb (a b : list (string * string * string * string)) : bool :=
-  match a, b with
-  | [], [] => true
-  | (f1, g1, k1, e1) :: a', (f2, g2, k2, e2) :: b' =>
-      String.eqb f1 f2 && String.eqb g1 g2 && String.eqb k1 k2 && String.eqb e1 e2 && site_list_eqb a' b'
-  | _, _ => false
-  end.
+(* the comparison is by file, kind and expression text, as multisets: moving an expression to a
+   helper function of the same file, or reordering functions, is not a new site; a new or
+   changed expression is *)
+Definition site_key_eqb (x y : string * string * string * string) : bool :=
+  let '(f1, _, k1, e1) := x in let '(f2, _, k2, e2) := y in
+  String.eqb f1 f2 && String.eqb k1 k2 && String.eqb e1 e2.
+Definition site_count (x : string * string * string * string) (l : list (string * string * string * string)) : nat :=
+  length (filter (site_key_eqb x) l).
+(* every site of the current tree is a reviewed one (a site that went away needs no review) *)
+Definition site_list_eqb (current reviewed : list (string * string * string * string)) : bool :=
+  forallb (fun x => Nat.leb (site_count x current) (site_count x reviewed)) current.
 Theorem c15_sites_reviewed : site_list_eqb panic_sites reviewed_sites = true.
 Proof. vm_compute. reflexivity. Qed.
 Print Assumptions c15_sites_reviewed.
